@@ -7,7 +7,7 @@
    inhabited by every Tink AEAD, e.g. AES-GCM (aesgcm_is_kek). *)
 From Coq Require Import List NArith Bool Arith Lia ZifyN ZifyNat ZifyBool.
 From Tink Require Import Bytes AeadFrame AeadFrameProofs Ctr CtrProofs EtMProofs Polyval GcmSiv GcmSivProofs
-  Envelope EnvelopeProofs EnvelopeDek.
+  Envelope EnvelopeProofs EnvelopeDek ProtoWire ProtoWireProofs.
 Import ListNotations.
 Open Scope N_scope.
 
@@ -127,16 +127,45 @@ End NonceInstances.
 
 (* ---- newDEK and the wire format (no law needed) ---- *)
 (* newDEK: a fresh key of a supported size serialises to a DEK that parses back *)
-Lemma dek_parse_proto kd k : dek_size_ok kd k = true -> dek_parse kd (dek_proto (dek_tag kd) k) = Some k.
+(* dek_proto (one-byte tag, one-byte length, key) is ProtoWire's encoding of { version 0, key_value k } *)
+Lemma dek_encode_shape kd k : k <> [] ->
+  encode (dek_schema kd) [VInt 0; VBytes k] = varint_enc (dek_field kd * 8 + 2) ++ varint_enc (lenN k) ++ k.
 Proof.
-  intros Hs. unfold dek_parse, dek_proto, dek_key. rewrite N.eqb_refl, N.eqb_refl. cbn [andb].
-  assert (Hk : lenN k <? 128 = true).
-  { apply N.ltb_lt. unfold lenN. destruct kd; cbn [dek_size_ok] in Hs;
+  intros Hk. destruct k as [|x k']; [contradiction|].
+  unfold encode, dek_schema. cbn [raw_fields raw_val N.eqb app].
+  unfold ser, lenN. cbn [map concat]. unfold ser_one. rewrite !app_nil_r. reflexivity.
+Qed.
+
+Lemma dek_proto_is_encode kd k : dek_size_ok kd k = true ->
+  dek_proto (dek_tag kd) k = encode (dek_schema kd) [VInt 0; VBytes k].
+Proof.
+  intros Hs.
+  assert (Hl : length k = 16%nat \/ length k = 32%nat).
+  { destruct kd; cbn [dek_size_ok] in Hs;
       repeat match goal with
              | H : (_ || _)%bool = true |- _ => apply orb_true_iff in H; destruct H
              | H : Nat.eqb _ _ = true |- _ => apply Nat.eqb_eq in H
-             end; lia. }
-  rewrite Hk, Hs. reflexivity.
+             end; auto. }
+  rewrite dek_encode_shape by (intros ->; cbn in Hl; lia).
+  unfold dek_proto, lenN.
+  destruct Hl as [Hl|Hl]; rewrite Hl; destruct kd; reflexivity.
+Qed.
+
+Lemma dek_parse_proto kd k : dek_size_ok kd k = true -> dek_parse kd (dek_proto (dek_tag kd) k) = Some k.
+Proof.
+  intros Hs. rewrite (dek_proto_is_encode kd k Hs). unfold dek_parse.
+  rewrite decode_encode.
+  - cbn [dk_vint dk_vbytes N.eqb andb]. rewrite Hs. reflexivity.
+  - destruct kd; vm_compute; reflexivity.
+  - unfold dek_schema. cbn [wf_msg wf_val scalar_ok]. reflexivity.
+  - rewrite <- (dek_proto_is_encode kd k Hs). unfold dek_proto, two64. cbn [length].
+    assert (Hl : (length k <= 32)%nat).
+    { destruct kd; cbn [dek_size_ok] in Hs;
+        repeat match goal with
+               | H : (_ || _)%bool = true |- _ => apply orb_true_iff in H; destruct H
+               | H : Nat.eqb _ _ = true |- _ => apply Nat.eqb_eq in H
+               end; lia. }
+    lia.
 Qed.
 
 (* wire format: be32(|encDEK|) || encDEK || <DEK AEAD ciphertext>, encDEK = KEK.Encrypt(serialised DEK, "") *)
